@@ -1478,6 +1478,8 @@ class Interp:
                 return CallV(nm, None, args, kwargs, lineno)
             if nm == "textwrap.dedent":
                 return CallV("dedent", None, args, kwargs, lineno)
+        if isinstance(callee, Field):
+            return CallV(callee.attr, callee.base, args, kwargs, lineno)
         return CallV(name_of(callee, text), callee, args, kwargs, lineno)
 
     def _apply_factory(self, fac, args, kwargs, env, lineno):
